@@ -199,10 +199,15 @@ struct RuleMatchJSON<'a> {
   labels: Option<Vec<MatchNode<'a>>>,
 }
 impl<'a> RuleMatchJSON<'a> {
-  fn new(nm: NodeMatch<'a>, path: &'a str, rule: &'a RuleConfig<SgLang>) -> Self {
+  fn new(
+    nm: NodeMatch<'a>,
+    path: &'a str,
+    rule: &'a RuleConfig<SgLang>,
+    context: (u16, u16),
+  ) -> Self {
     let message = rule.get_message(&nm);
     let labels = get_labels(&nm);
-    let matched = MatchJSON::new(nm, path, (0, 0));
+    let matched = MatchJSON::new(nm, path, context);
     Self {
       matched,
       rule_id: &rule.id,
@@ -212,11 +217,16 @@ impl<'a> RuleMatchJSON<'a> {
       labels,
     }
   }
-  fn diff(diff: Diff<'a>, path: &'a str, rule: &'a RuleConfig<SgLang>) -> Self {
+  fn diff(
+    diff: Diff<'a>,
+    path: &'a str,
+    rule: &'a RuleConfig<SgLang>,
+    context: (u16, u16),
+  ) -> Self {
     let nm = &diff.node_match;
     let message = rule.get_message(nm);
     let labels = get_labels(nm);
-    let matched = MatchJSON::diff(diff, path, (0, 0));
+    let matched = MatchJSON::diff(diff, path, context);
     Self {
       matched,
       rule_id: &rule.id,
@@ -376,9 +386,10 @@ impl PrintProcessor<Buffer> for JSONProcessor {
     rule: &RuleConfig<SgLang>,
   ) -> Result<Buffer> {
     let path = file.name();
+    let context = self.context;
     let jsons = matches
       .into_iter()
-      .map(|nm| RuleMatchJSON::new(nm, path, rule));
+      .map(|nm| RuleMatchJSON::new(nm, path, rule, context));
     self.print_docs(jsons)
   }
 
@@ -405,9 +416,10 @@ impl PrintProcessor<Buffer> for JSONProcessor {
     path: &Path,
   ) -> Result<Buffer> {
     let path = path.to_string_lossy();
+    let context = self.context;
     let jsons = diffs
       .into_iter()
-      .map(|(diff, rule)| RuleMatchJSON::diff(diff, &path, rule));
+      .map(|(diff, rule)| RuleMatchJSON::diff(diff, &path, rule, context));
     self.print_docs(jsons)
   }
 }
